@@ -204,7 +204,7 @@ func parseEMLHeaders(mailHeader *netmail.Header, msg *Msg) error {
 				return fmt.Errorf(`failed to parse address list: %w`, err)
 			}
 			for _, addr := range parsedAddrs {
-				addrStrings = append(addrStrings, addr.String())
+				addrStrings = append(addrStrings, addressString(addr))
 			}
 			// We can skip the error checking here since netmail.ParseAddressList already performed the
 			// same address checking that the msg methods do.
